@@ -41,28 +41,30 @@ ASSUMPTIONS = [
 ]
 MIN_COUNTERS = {
     "quick": {
-        "cases": 15000,
-        "accepted": 2000,
-        "rejected": 5000,
-        "splice_cases": 7000,
+        "cases": 9000,
+        "accepted": 1500,
+        "rejected": 4000,
+        "splice_cases": 3500,
         "doc_forms_accepted": 250,
-        "precedence_pairs_equal": 25,
-        "full_layer_veneer_checks": 400,
+        "precedence_pairs_equal": 30,
+        "hostile_cases": 235,
+        "full_layer_veneer_checks": 300,
         "truncation_cases": 1500,
     },
     "thorough": {
-        "cases": 150000,
-        "accepted": 20000,
-        "rejected": 50000,
-        "splice_cases": 7000,
+        "cases": 80000,
+        "accepted": 10000,
+        "rejected": 30000,
+        "splice_cases": 15000,
         "doc_forms_accepted": 250,
-        "precedence_pairs_equal": 25,
-        "full_layer_veneer_checks": 4000,
-        "truncation_cases": 10000,
+        "precedence_pairs_equal": 30,
+        "hostile_cases": 235,
+        "full_layer_veneer_checks": 3000,
+        "truncation_cases": 8000,
     },
 }
 EXHAUSTIVE = {
-    "quick": "all carrier x Scenic-only-expression splices; all documented forms; all precedence pairs",
+    "quick": "every second carrier x Scenic-only-expression splice; all documented forms with every truncation; all precedence pairs",
     "thorough": "all carrier x Scenic-only-expression splices; all documented forms; all precedence pairs",
 }
 
@@ -217,7 +219,28 @@ def _where(exc):
     return f"{os.path.basename(fr.filename)}:{fr.name}"
 
 
-def crash_key(exc, stage):
+def _stack_names(exc):
+    import traceback
+
+    return [fr.name for fr in traceback.extract_tb(exc.__traceback__)]
+
+
+def _lines_without_token_start(text):
+    import io
+    import tokenize
+
+    have = set()
+    try:
+        for tok in tokenize.generate_tokens(io.StringIO(text).readline):
+            if tok.type not in (tokenize.NL, tokenize.COMMENT, tokenize.ENDMARKER) and tok.string.strip():
+                have.add(tok.start[0])
+    except Exception:
+        pass
+    last = max(have) if have else 0
+    return {i for i in range(1, last + 1) if i not in have}
+
+
+def crash_key(exc, stage, text=""):
     """Narrow, mechanism-based classification of an escaped internal exception."""
     msg = str(exc)
     where = _where(exc)
@@ -225,8 +248,26 @@ def crash_key(exc, stage):
         return "fstring-conversion-tokeninfo-lineno"
     if isinstance(exc, ValueError) and msg.startswith("unexpected expression in assignment") and "get_expr_name" in where:
         return "get_expr_name-scenic-node"
+    # behavior/scenario locals are rewritten to attributes of the behavior object, also where Python's
+    # compiler insists on a plain Name
     if isinstance(exc, TypeError) and "AnnAssign with simple non-Name target" in msg and stage == "pycompile":
-        return "annassign-simple-flag-after-name-rewrite"
+        return "behavior-local-rewrite:AnnAssign"
+    if isinstance(exc, TypeError) and "TypeAlias with non-Name name" in msg and stage == "pycompile":
+        return "behavior-local-rewrite:TypeAlias"
+    if isinstance(exc, TypeError) and "NamedExpr target must be a Name" in msg and stage == "pycompile":
+        return "behavior-local-rewrite:NamedExpr"
+    if isinstance(exc, SyntaxError) and stage == "parse" and "literal_eval" in _stack_names(exc):
+        return "literal-eval-raw-syntaxerror"
+    if isinstance(exc, SystemError) and "\x00" in text and stage == "parse":
+        return "nul-byte-tokenizer-systemerror"
+    if isinstance(exc, KeyError) and where == "tokenizer.py:get_lines" and exc.args and isinstance(exc.args[0], int):
+        # baseline mechanism: the span of the error crosses a line on which no significant token starts
+        # (blank / comment-only line, or the inside of a multi-line string), which pegen's Tokenizer never records
+        if exc.args[0] in _lines_without_token_start(text):
+            return "error-span-crosses-line-without-token"
+    m = re.fullmatch(r"'(\w+)' object has no attribute '(?:end_)?(?:lineno|col_offset)'", msg)
+    if isinstance(exc, AttributeError) and m and stage == "parse" and m.group(1) != "TokenInfo":
+        return "scenic-node-missing-locations:" + m.group(1)
     return None
 
 
@@ -239,7 +280,7 @@ def judge_front(text, r):
         return ("logical-step-budget-exceeded", f"more than {STEP_BUDGET_PER_TOKEN} tokenizer steps per token in stage {r['stage']}")
     e = r["exc"]
     if k == "crash":
-        return (crash_key(e, r["stage"]), f"internal {type(e).__name__} escaped from stage {r['stage']} at {_where(e)}: {str(e)[:160]}")
+        return (crash_key(e, r["stage"], text), f"internal {type(e).__name__} escaped from stage {r['stage']} at {_where(e)}: {str(e)[:160]}")
     # Scenic syntax error: must name a line inside the input
     ln = getattr(e, "lineno", None)
     n = nlines(text)
@@ -251,6 +292,8 @@ def judge_front(text, r):
 
 
 def syntax_key(e, stage, what):
+    if what == "noline" and "Missing 'monitor' keyword after 'require'" in str(e):
+        return "missing-monitor-keyword-error-without-line"
     return None
 
 
@@ -351,7 +394,8 @@ def judge_full(text, r):
             out.append(j)
     if r["kind"] == "rawsyntax":
         e = r["exc"]
-        out.append((None, f"raw {type(e).__name__} (not a Scenic syntax error) escaped scenarioFromString: {str(e)[:160]}"))
+        key = "literal-eval-raw-syntaxerror" if "literal_eval" in _stack_names(e) else None
+        out.append((key, f"raw {type(e).__name__} (not a Scenic syntax error) escaped scenarioFromString: {str(e)[:160]}"))
     return out
 
 
@@ -396,13 +440,18 @@ def plan(tier, seed):
 def run_shard(spec):
     from rt import mutate, su
 
+    import os
+
     tier, shard, n = spec["tier"], spec["shard"], spec["nshards"]
+    n *= int(os.environ.get("VERIF_C10_SUBSAMPLE", "1") or 1)  # development aid only
     rng = random.Random(spec["seed"] * 1000003 + shard)
     res = {"evaluations": 0, "nontrivial": [], "counters": {}, "samples": [], "violations": [], "skipped": {}, "extra": {}}
     C = res["counters"]
     seen_text = set()
     per_key = {}
     worst = [0.0, ""]
+    cpu = {}
+    import time
 
     def bump(k, c=1):
         C[k] = C.get(k, 0) + c
@@ -432,7 +481,9 @@ def run_shard(spec):
             skip("duplicate-text")
             return None
         seen_text.add(text)
+        t0 = time.process_time()
         r = front_end(text)
+        cpu[origin] = cpu.get(origin, 0.0) + time.process_time() - t0
         res["evaluations"] += 1
         bump("cases")
         bump("mut_" + mut)
@@ -469,7 +520,19 @@ def run_shard(spec):
         return kinds[0], text
 
     files, snippets, forms = build_seeds()
-    mult = 1 if tier == "quick" else 10
+    quick = tier == "quick"
+    # per-tier workload sizes (cases are ~25 ms each: the quick tier is budgeted at ~12 000 cases)
+    W = {
+        "doc_mutants": 2 if quick else 30,
+        "snip_mutants": 2 if quick else 30,
+        "snip_trunc_tokens": 12 if quick else 60,
+        "file_mutants": (1, 0, 0) if quick else (12, 8, 4),
+        "splice_ctx0": 2 if quick else 1,  # every k-th (carrier+filler) in the plain context
+        "splice_ctx1": 8 if quick else 1,
+        "splice_ctx2": 8 if quick else 1,
+        "full_mutants": 1 if quick else 8,
+        "full_every": 2 if quick else 1,
+    }
 
     # ---- A. documented forms: accepted, with the documented precedence (shard 0.. by index)
     for i, (kind, heading, form, prog, line) in enumerate(forms):
@@ -494,9 +557,16 @@ def run_shard(spec):
         for t in mutate.truncations(prog, toks):
             if case(t, "doc-form", "truncate_all") is not None:
                 bump("truncation_cases")
-        for _ in range(4 * mult):
+        for _ in range(W["doc_mutants"]):
             k, t = mutated(prog, toks)
             case(t, "doc-form", k)
+    from rt.hostile import HOSTILE
+
+    for i, t in enumerate(HOSTILE):
+        if i % n != shard:
+            continue
+        if case(t, "hostile") is not None:
+            bump("hostile_cases")
     for i, (a, b, ref) in enumerate(PRECEDENCE):
         if i % n != shard:
             continue
@@ -521,12 +591,12 @@ def run_shard(spec):
         if idx % n != shard:
             continue
         for ctx in range(3):
-            if ctx == 1:
+            if (ci + fi) % W["splice_ctx%d" % ctx]:
+                t = None
+            elif ctx == 1:
                 t = "behavior Outer():\n" + "".join("    " + ln + "\n" for ln in text.rstrip("\n").split("\n")) if not text.startswith(("behavior", "monitor", "scenario", "class", "param", "model", "mutate", "record", "terminate", "simulator", "new", "ego", "workspace", "import", "from", "global", "nonlocal", "require monitor")) else None
             elif ctx == 2:
                 t = "scenario Outer():\n    setup:\n" + "".join("        " + ln + "\n" for ln in text.rstrip("\n").split("\n")) if not text.startswith(("behavior", "monitor", "scenario", "class", "model", "import", "from", "global", "nonlocal", "simulator")) else None
-                if (ci + fi) % 4:  # thin out the third context
-                    t = None
             else:
                 t = text
             if t is None:
@@ -540,11 +610,11 @@ def run_shard(spec):
             continue
         case(text, "test-snippet")
         toks = mutate.tokens_of(text)
-        for _ in range(6 * mult):
+        for _ in range(W["snip_mutants"]):
             k, t = mutated(text, toks)
             case(t, "test-snippet", k)
-        if len(toks) <= 40 or rng.random() < 0.1 * mult:
-            for t in mutate.truncations(text, toks)[:200]:
+        if len(toks) <= W["snip_trunc_tokens"]:
+            for t in mutate.truncations(text, toks):
                 if case(t, "test-snippet", "truncate_all") is not None:
                     bump("truncation_cases")
     for i, (path, text) in enumerate(files):
@@ -552,7 +622,7 @@ def run_shard(spec):
             continue
         case(text, "scenic-file")
         toks = mutate.tokens_of(text)
-        nm = (4 if len(text) < 4000 else 2 if len(text) < 12000 else 1) * mult
+        nm = W["file_mutants"][0 if len(text) < 4000 else 1 if len(text) < 12000 else 2]
         for _ in range(nm):
             k, t = mutated(text, toks)
             case(t, "scenic-file", k)
@@ -570,18 +640,20 @@ def run_shard(spec):
                 full_seeds.append(defs + prog)
     nfull = 0
     for i, text in enumerate(full_seeds):
-        if i % n != shard:
+        if i % n != shard or (i // n) % W["full_every"]:
             continue
         variants = [("asis", text)]
         toks = mutate.tokens_of(text)
-        for _ in range(1 * mult if tier == "quick" else 4):
+        for _ in range(W["full_mutants"]):
             k, t = mutated(text, toks)
             if side_effect_free(t):
                 variants.append((k, t))
         for k, t in variants:
             if not nesting_ok(t):
                 continue
+            t0 = time.process_time()
             r = full_layer(t, mode2D=(rng.random() < 0.15))
+            cpu["full"] = cpu.get("full", 0.0) + time.process_time() - t0
             nfull += 1
             res["evaluations"] += 1
             bump("full_layer_cases")
@@ -604,10 +676,14 @@ def run_shard(spec):
     ]
     res["extra"]["worst_steps_per_token_x1000"] = [int(worst[0] * 1000)]
     res["extra"]["worst_steps_input"] = [worst[1]]
+    for k, v in cpu.items():
+        res["extra"]["cpu_ms_" + k] = int(v * 1000)
     return res
 
 
 def doc_form_key(kind, heading, form, e):
+    if form.startswith("record ") and " as " in form and " to " in form and 'both "as" and "to"' in str(e):
+        return "record-as-and-to-rejected"
     return None
 
 
